@@ -51,6 +51,18 @@ CLAIMED = {
  "C15": ("error-discipline rules + abstract reachability (nil-ness through phis) + liveness schemas",
          "Every render/flush error reaches the container loop's err; the error edge spawns the drain loop, cancels the container and disables all three inboxes; from every error edge no further render is reachable and the error is written to the debug output exactly once on every path to return; the size-query error abandons the cycle; a cycle is abandoned only when no render is in flight (flush never leaves its collection loop early).",
          NOTE + "Fault injection is not executed; the rules hold for every fault site and every k because they hold on every path.", "DESIGN.md §4 C15"),
+ "C04": ("ordering/guard rules on SSA paths of the writer's Flush, flush's clipping and accounting, and the constructor's listener decision",
+         "Frame written before the queued cursor-up+erase, which goes into the writer's own buffer with the given count and only for lines > 0, with the right escape constants; rows appended only while len(rows) < height-1 and clipped readers drained; used/popped row accounting and the Flush argument; discarding writer while the render delay is pending; listener only for manual / terminal / forced auto refresh with consistent flags. One genuine defect (height rows scroll the top bar into the scrollback) was found by this rule, reproduced and repaired (fix: f14b509).",
+         NOTE + "The screen state after each frame is not computed by interpreting the byte stream; column widths are C07; one line per row reader is the user's contract.", "DESIGN.md §4 C04"),
+ "C06": ("orientation-parity and heap-bookkeeping rules (E10) on SSA",
+         "Less is a direct strict comparison of the two priorities (no overflowing arithmetic) and its orientation agrees with the reversed output loop and the reversed per-bar row collection; the fix arm is guarded by index >= 0, stores then fixes unless lazy; Swap/Push/Pop keep Bar.index consistent; default priority is the creation counter; successor inherits at the swap; pop priority assigned then advanced; API forwards (bar, priority, lazy).",
+         NOTE + "Per-frame order under racing updates is not decided; container/heap is trusted.", "DESIGN.md §4 C06"),
+ "C07": ("loop-termination classification (ranking arguments per natural loop, E5) + guarded-effect width accounting",
+         "Every natural loop on the render/heap path has a stated ranking argument (range, counting with provably positive loop-invariant step, two-pointer, drain), recursion only through data-bounded delegation; decorator text is written in full only under AvailableWidth - width >= 0, truncated only under AvailableWidth > 0, with the width accounted; spacers kept only with room; fillers return before writing when their width does not fit; every built-in Decor returns its Format width. A complete termination decision for library code assuming library callees terminate.",
+         NOTE + "Display width of actual strings (runewidth semantics) is not computed.", "DESIGN.md §4 C07"),
+ "C08": ("overflow taint + monotone-composition lattice + structural relation of fill/refill widths (E6)",
+         "No integer product/shift of total/current/refill anywhere in the percentage path; negativity guard before int64->uint; every piece of the helper non-decreasing in current, full width at/after total, zero for total 0; wrapper rounds; filler relates filled and refill widths without further adjustment and accounts exactly the cells it appends; SetRefill caps at current.",
+         NOTE + "Rounding to the nearest cell and the +-1 rune tolerance are arithmetic facts assumed, not decided.", "DESIGN.md §4 C08"),
 }
 PENDING_REASON = "check not built yet (DESIGN.md §7: a property is claimed only once its rules are built and silent on the repaired tree)"
 NA = {}
